@@ -148,6 +148,7 @@ def run(ctx):
                 out = xitorch.integrate.SQuad(xs32, method=method).cumsum(torch.tensor([1.0, 2.0, 0.0, 1.0], dtype=dtype))
                 if out.dtype != dtype:
                     ctx.violation("squad/dtype", "SQuad(%s) returns %s for %s input" % (method, out.dtype, dtype), {"method": method})
+    ctx.replayed = len(nodes) + len(snodes)
     ctx.notes.update(cases=n, weight_rows=len(nodes), shape_rows=len(snodes))
     ctx.exhaustive = True
     ctx.assumptions += [
